@@ -189,4 +189,50 @@ static Reg r_io_rot("io.readorthrow", [](const std::vector<std::string> &a) { re
 static Reg r_io_roe("io.readoreof", [](const std::vector<std::string> &a) { return io_read(a, 1); });
 static Reg r_io_pr("io.partialread", [](const std::vector<std::string> &a) { return io_read(a, 2); });
 
+// ---- WARC (C17): warc.read <sched|-> <hexdata>  -> "ok n rec.. [ERR:kind]"
+#include "preprocess/warc.hh"
+static Reg r_warc("warc.read", [](const std::vector<std::string> &a) -> std::string {
+  std::string data;
+  if (a.size() != 2 || !unhex(a[1], data)) return "bad-op";
+  int fds[2];
+  if (pipe(fds)) return "ERR:pipe";
+  std::thread w([&]() {
+    size_t off = 0;
+    while (off < data.size()) {
+      ssize_t k = syscall(SYS_write, fds[1], data.data() + off, data.size() - off);
+      if (k <= 0) break;
+      off += k;
+    }
+    close(fds[1]);
+  });
+  std::string out;
+  size_t n = 0;
+  std::string err;
+  {
+    set_sched(a[0]);
+    g_watch_fd = fds[0];
+    try {
+      preprocess::WARCReader reader(fds[0]);
+      std::string rec;
+      while (reader.Read(rec)) { out += " " + hex(rec); ++n; }
+    } catch (const util::EndOfFileException &e) { err = " ERR:eof";
+    } catch (const util::Exception &e) {
+      std::string m = e.what();
+      if (m.find("Expected WARC/1.0") != std::string::npos) err = " ERR:version";
+      else if (m.find("Two Content-Length") != std::string::npos) err = " ERR:twolengths";
+      else if (m.find("Content-Length") != std::string::npos && m.find("No Content-Length") == std::string::npos) err = " ERR:lengthparse";
+      else if (m.find("No Content-Length") != std::string::npos) err = " ERR:nolength";
+      else if (m.find("missing CRLF") != std::string::npos) err = " ERR:noterminator";
+      else err = " ERR:other";
+    } catch (const std::exception &e) { err = " ERR:std";
+    }
+    g_watch_fd = -1;
+  }
+  // drain so the writer thread can finish
+  char buf[4096];
+  while (syscall(SYS_read, fds[0], buf, sizeof buf) > 0) {}
+  w.join();
+  return "ok " + std::to_string(n) + out + err;
+});
+
 int main() { return pv::main_loop(); }
